@@ -29,7 +29,12 @@ let () =
           incr invalid; Printf.printf "%s invalid\n" id
         end else begin
           match (try Some (eval input obs) with e -> (prerr_endline ("evaluator exception on case " ^ id ^ ": " ^ Printexc.to_string e); None)) with
-          | None -> incr invalid; Printf.printf "%s invalid\n" id
+          | None ->
+              (* the harness understood the input and the implementation answered, but with something outside what
+                 the evaluator of this property can read: model and implementation disagree on this case (the
+                 executable spec has not judged it) *)
+              incr diffs;
+              Printf.printf "%s corr=diff spec=ok model=(unreadable-observation) impl=%s\n" id (Sx.show (Sx.L (Sx.args obs)))
           | Some (m, spec, nt, cls) ->
             let o' = Sx.args obs in
             let corr = (m = o') in
